@@ -14,6 +14,10 @@ CLAIMED = {
   text="Deductive proof that AccessControl._is_allowed returns exactly the statement's policy (no deny entry contains the address and (an allow entry contains it or no allow list and default allow); unparsable => refused) for network lists of any length (two inductive loop invariants), that process_request refuses with one '53' line exactly then, that AccessControl.__init__ turns every list entry into its denotation or fails start-up with ValueError because some entry is uninterpretable (loop invariants over entry lists of any length), and that ServerConfig.get_access_control_config returns None only when the written policy admits everyone. Wiring of the component into the chain is decided by AST pattern obligations.",
   note="Assumed: E10 ipaddress (parsing uninterpreted: a function of the string; containment = same version and integer interval), tomllib returns what is written; start_server/CLI/from_toml wiring checked structurally on the AST, not semantically; configured-but-empty allow list read as 'no allow list' (ambiguous in the statement).",
   technique="contract-based deductive verification: pyvc VCs with quantified loop invariants, z3 (arrays + quantifiers)", ref="6/C09"),
+ "C16": dict(
+  text="Deductive proof of the recursive GeminiClient._get_with_redirects and of GeminiClient.get against contracts taken from the statement, for all URLs, limits, visited lists and server responses: connections opened <= max(0, max_redirects+1-len(chain)); every requested URL has scheme gemini and was not requested before in the fetch (ghost set == visited list); a returned response is never a gemini:// redirect; 'Maximum redirects' only after more than max_redirects redirects (so chains of at most max_redirects are followed); 'Redirect loop' only for a visited URL; follow_redirects=False makes exactly one _get_single call and returns its result unchanged. Recursion by rule R3 with a decreasing measure obligation.",
+  note="Assumed: contract of _get_single (one connection per call, to the URL's host, pin-checked; any status 10..69 and any meta may come back) and of validate_url (returns only for gemini URLs) - those are decided under C03/C11/C13/C08; R3 recursion rule; the callee's append to the shared visited list is unobservable because the recursive call is in tail position (checked on the AST).",
+  technique="contract-based deductive verification: pyvc VCs over the real recursive function (ghost counters, quantified ghost-set invariant), z3", ref="6/C16"),
 }
 NA_REASON = "check not built yet (work in progress; see DESIGN.md section 6 for the plan)"
 
